@@ -98,6 +98,25 @@ def generate(rng, tier):
             g = G.rand_point_cloud(rng, sz)
         toks, info = e2e.rand_options(rng, g)
         cases.append(case(g, toks, info, ("gen:random",)))
+    # ---- (a2) sequential point clouds whose delta histogram puts one symbol exactly on a size-class boundary of the
+    #      rANS probability table (2^14 at 15 / 16 bits of precision; counts chosen so that normalisation is exact);
+    #      the compression level follows max(encoding speed, decoding speed)
+    import struct as _st
+    for (m, p_, z) in [(256, 8, 4096), (512, 6, 2048), (256, 6, 1024)]:
+        for sp in ([1, 2, 3, 4] if thorough else [rng.choice([1, 2]), 3, 4]):
+            deltas = [0] * z + [k for k in range(1, m + 1) for _ in range(p_)] + [-k for k in range(1, m + 1) for _ in range(p_)]
+            rng.shuffle(deltas)
+            v, vals = 0, []
+            for d in deltas:
+                v += d
+                vals.append(v)
+            n = len(vals)
+            att = G.Attr(G.GENERIC, G.DT["i32"], 1, False, 0, n, None, b"".join(_st.pack("<i", x) for x in vals))
+            g = G.Geom(False, n, [], [att])
+            g.family = "step_values"
+            toks = ["method=0", f"speed={sp},{rng.randint(0, sp)}"]
+            info = {"expert": False, "req": {}, "track": False, "skip": None}
+            cases.append(case(g, toks, info, ("gen:symbol-table-boundary",)))
     reps = 4 if thorough else 1
     for _ in range(reps):
         # ---- (b1) every method class x every encoder speed (decoder speed random)
